@@ -11,11 +11,12 @@
     `sqMat n get`      the Mathlib matrix `fun i j : Fin n => get i j` a square view shows
     `matOfList n l`    a row-major `n × n` buffer as a Mathlib matrix
     `LawfulEq K`       the element type's `==` (used for `det == T::zero()`) is equality
-  Sizes: the determinant theorems are for sizes 1..6 — the property's own range; the statement
-  for every size (`detModel_eq_det_all`) is the documented gap at the end of this file.
-  Everything that does not need the value of the determinant (absence for non-square input,
-  the minors agreeing, names/shape of the result, no panic, matrix = tensor entry points) is
-  proved for every size and every element type.
+  Sizes: every theorem holds for every size `n ≥ 1` (the property speaks about 1..6).  The
+  determinant is proved twice: `heaps_enumerates` / `detModel_eq_det` for sizes 1..6 through
+  kernel-checked tables of Heap's algorithm (`decide +kernel`, Lemmas/DetTable.lean), and
+  `heaps_enumerates_all` / `detModel_eq_det_all` for every size through a proof of Heap's
+  algorithm by induction on the level (Lemmas/HeapsArith.lean, Lemmas/HeapsAll.lean); the
+  inverse theorems use the latter.
 -/
 import EasyMl.Lemmas.Det
 
@@ -54,6 +55,16 @@ example : ([1, Equiv.swap (0 : Fin 2) 1] : List (Perm (Fin 2))).Nodup ∧
   · decide
   · decide
 
+/-- **Heap's algorithm as easy-ml runs it is correct for every size**: the emitted list is the
+    image of a duplicate-free list of all permutations of `Fin n`, each with its sign flag.
+    (Induction on the level `k`: end state of `heaps k` in closed form, every element visits
+    position `k-1` exactly once, consecutive emissions differ by one transposition.) -/
+theorem heaps_enumerates_all (n : Nat) (h1 : 1 ≤ n) :
+    ∃ σs : List (Perm (Fin n)), σs.Nodup ∧ (∀ σ, σ ∈ σs) ∧
+      generatePermutations (List.range n)
+        = σs.map fun σ => (List.ofFn fun i : Fin n => ((σ i : Fin n) : Nat), decide (Perm.sign σ = 1)) :=
+  enumerates_all n h1
+
 /-! ### The determinant -/
 
 /-- **Determinant, sizes 1..6, any commutative ring.**  The Leibniz sum the code accumulates
@@ -62,23 +73,28 @@ theorem detModel_eq_det {R : Type} [CommRing R] (n : Nat) (h1 : 1 ≤ n) (h6 : n
     (get : Nat → Nat → R) : detModel n get = (Matrix.of fun i j : Fin n => get i j).det :=
   detModel_eq_det' n h1 h6 get
 
-/-- `determinant_tensor` / `Tensor::determinant` / `TensorView::determinant` on a square view of
-    size 1..6 return exactly `Matrix.det` of the entries shown. -/
-theorem determinantTensor_eq_det {R : Type} [CommRing R] (n : Nat) (h1 : 1 ≤ n) (h6 : n ≤ 6)
+/-- **Determinant, every size `n ≥ 1`, any commutative ring** (through `heaps_enumerates_all`). -/
+theorem detModel_eq_det_all {R : Type} [CommRing R] (n : Nat) (h1 : 1 ≤ n)
+    (get : Nat → Nat → R) : detModel n get = (Matrix.of fun i j : Fin n => get i j).det :=
+  detModel_eq_det_all' n h1 get
+
+/-- `determinant_tensor` / `Tensor::determinant` / `TensorView::determinant` on a square view
+    return exactly `Matrix.det` of the entries shown (every size). -/
+theorem determinantTensor_eq_det {R : Type} [CommRing R] (n : Nat) (h1 : 1 ≤ n)
     (get : Nat → Nat → R) :
     determinantTensor ⟨n, n, get⟩ = some (Matrix.of fun i j : Fin n => get i j).det :=
-  detView_eq_det' n h1 h6 get
+  detView_eq_det' n h1 get
 
-/-- `linear_algebra::determinant` / `Matrix::determinant` on a square matrix of size 1..6 return
-    exactly `Matrix.det` of its entries (`entry m r c` is `data[c + r·columns]`). -/
+/-- `linear_algebra::determinant` / `Matrix::determinant` on a square matrix return exactly
+    `Matrix.det` of its entries (entry `[r, c]` is `data[c + r·columns]`), every size. -/
 theorem determinant_eq_det {R : Type} [CommRing R] (m : EasyMl.Matrix R) (hsq : m.rows = m.columns)
-    (h1 : 1 ≤ m.rows) (h6 : m.rows ≤ 6) :
+    (h1 : 1 ≤ m.rows) :
     determinant m = some (Matrix.of fun i j : Fin m.rows => m.data.getD ((j : Nat) + (i : Nat) * m.columns) 0).det := by
   rw [determinant_eq_detView]
   have : viewOfMatrix m = ⟨m.rows, m.rows, (viewOfMatrix m).get⟩ := by
     simp [viewOfMatrix, hsq]
   rw [this]
-  exact detView_eq_det' m.rows h1 h6 _
+  exact detView_eq_det' m.rows h1 _
 
 /-- Non-vacuity: a 3×3 integer matrix. -/
 example : determinant (⟨[2, 0, 1, 1, 3, 2, 1, 1, 4], 3, 3⟩ : EasyMl.Matrix Int) = some 18 := by decide
@@ -113,32 +129,31 @@ section Inverse
 variable {K : Type} [Field K] [NumOrd K] {ν : Type}
 
 /-- **Present exactly when defined.**  `inverse_tensor` returns a tensor exactly when the view is
-    square with non-zero determinant (square sizes 1..6; any non-square shape). -/
-theorem inverse_some_iff (heq : LawfulEq K) (names : ν × ν) (v : View K) (h1 : 1 ≤ v.rows)
-    (h6 : v.rows = v.cols → v.rows ≤ 6) :
+    square with non-zero determinant (every shape). -/
+theorem inverse_some_iff (heq : LawfulEq K) (names : ν × ν) (v : View K) (h1 : 1 ≤ v.rows) :
     (∃ t, inverseTensor names v = .ok (some t)) ↔
       v.rows = v.cols ∧ (Matrix.of fun i j : Fin v.rows => v.get i j).det ≠ 0 := by
   obtain ⟨n, c, g⟩ := v
-  simp only at h1 h6 ⊢
+  simp only at h1 ⊢
   constructor
   · rintro ⟨t, ht⟩
     by_cases hsq : n = c
     · subst hsq
       refine ⟨rfl, fun h0 => ?_⟩
-      rw [(inverseTensor_spec names n h1 (h6 rfl) g heq).1 h0] at ht
+      rw [(inverseTensor_spec names n h1 g heq).1 h0] at ht
       cases ht
     · rw [inverseTensor_nonsquare names _ hsq] at ht
       cases ht
   · rintro ⟨hsq, hdet⟩
     subst hsq
-    obtain ⟨data, hd, _, _⟩ := (inverseTensor_spec names n h1 (h6 rfl) g heq).2 hdet
+    obtain ⟨data, hd, _, _⟩ := (inverseTensor_spec names n h1 g heq).2 hdet
     exact ⟨_, hd⟩
 
 /-- The inverse is exact: its buffer is Mathlib's `A⁻¹`, hence `A⁻¹ · A = 1` … -/
-theorem inverse_mul_self (heq : LawfulEq K) (names : ν × ν) (n : Nat) (h1 : 1 ≤ n) (h6 : n ≤ 6)
+theorem inverse_mul_self (heq : LawfulEq K) (names : ν × ν) (n : Nat) (h1 : 1 ≤ n)
     (get : Nat → Nat → K) (t : Tensor ν K) (h : inverseTensor names ⟨n, n, get⟩ = .ok (some t)) :
     matOfList n t.data * (Matrix.of fun i j : Fin n => get i j) = 1 := by
-  have hspec := inverseTensor_spec names n h1 h6 get heq
+  have hspec := inverseTensor_spec names n h1 get heq
   by_cases h0 : (sqMat n get).det = 0
   · rw [hspec.1 h0] at h; cases h
   · obtain ⟨data, hd, _, hinv⟩ := hspec.2 h0
@@ -149,10 +164,10 @@ theorem inverse_mul_self (heq : LawfulEq K) (names : ν × ν) (n : Nat) (h1 : 1
     exact Matrix.nonsing_inv_mul _ (isUnit_iff_ne_zero.mpr h0)
 
 /-- … and `A · A⁻¹ = 1`. -/
-theorem self_mul_inverse (heq : LawfulEq K) (names : ν × ν) (n : Nat) (h1 : 1 ≤ n) (h6 : n ≤ 6)
+theorem self_mul_inverse (heq : LawfulEq K) (names : ν × ν) (n : Nat) (h1 : 1 ≤ n)
     (get : Nat → Nat → K) (t : Tensor ν K) (h : inverseTensor names ⟨n, n, get⟩ = .ok (some t)) :
     (Matrix.of fun i j : Fin n => get i j) * matOfList n t.data = 1 := by
-  have hspec := inverseTensor_spec names n h1 h6 get heq
+  have hspec := inverseTensor_spec names n h1 get heq
   by_cases h0 : (sqMat n get).det = 0
   · rw [hspec.1 h0] at h; cases h
   · obtain ⟨data, hd, _, hinv⟩ := hspec.2 h0
@@ -162,12 +177,70 @@ theorem self_mul_inverse (heq : LawfulEq K) (names : ν × ν) (n : Nat) (h1 : 1
     simp only [hinv]
     exact Matrix.mul_nonsing_inv _ (isUnit_iff_ne_zero.mpr h0)
 
+/-- The same for `linear_algebra::inverse` / `Matrix::inverse`: present exactly for a square
+    matrix with non-zero determinant … -/
+theorem matrix_inverse_some_iff (heq : LawfulEq K) (m : EasyMl.Matrix K) (hinv : m.Inv) :
+    (∃ r, inverse m = .ok (some r)) ↔
+      m.rows = m.columns ∧
+        (Matrix.of fun i j : Fin m.rows => m.data.getD ((j : Nat) + (i : Nat) * m.columns) 0).det ≠ 0 := by
+  rw [inverse_eq_inverseTensor ((), ()) m hinv]
+  have h := inverse_some_iff heq ((), ()) (viewOfMatrix m) hinv.2.1
+  constructor
+  · rintro ⟨r, hr⟩
+    apply h.mp
+    cases hx : inverseTensor ((), ()) (viewOfMatrix m) with
+    | panic k => rw [hx] at hr; cases hr
+    | ok o =>
+      cases o with
+      | none => rw [hx] at hr; cases hr
+      | some t => exact ⟨t, rfl⟩
+  · intro hr
+    obtain ⟨t, ht⟩ := h.mpr hr
+    rw [ht]
+    exact ⟨_, rfl⟩
+
+/-- … and then it has the input's size and is a two-sided inverse. -/
+theorem matrix_inverse_mul (heq : LawfulEq K) (m r : EasyMl.Matrix K) (hinv : m.Inv)
+    (hsq : m.rows = m.columns) (h : inverse m = .ok (some r)) :
+    r.rows = m.rows ∧ r.columns = m.columns ∧
+      matOfList m.rows r.data
+          * (Matrix.of fun i j : Fin m.rows => m.data.getD ((j : Nat) + (i : Nat) * m.columns) 0) = 1 ∧
+      (Matrix.of fun i j : Fin m.rows => m.data.getD ((j : Nat) + (i : Nat) * m.columns) 0)
+          * matOfList m.rows r.data = 1 := by
+  rw [inverse_eq_inverseTensor ((), ()) m hinv] at h
+  have hv : viewOfMatrix m = ⟨m.rows, m.rows, (viewOfMatrix m).get⟩ := by
+    simp [viewOfMatrix, hsq]
+  cases hx : inverseTensor ((), ()) (viewOfMatrix m) with
+  | panic k => rw [hx] at h; cases h
+  | ok o =>
+    cases o with
+    | none => rw [hx] at h; cases h
+    | some t =>
+      rw [hx] at h
+      simp only [Outcome.ok.injEq, Option.some.injEq] at h
+      subst h
+      rw [hv] at hx
+      exact ⟨rfl, rfl, inverse_mul_self heq _ m.rows hinv.2.1 _ t hx,
+        self_mul_inverse heq _ m.rows hinv.2.1 _ t hx⟩
+
+/-- Non-vacuity: a square 2×2 rational matrix satisfying the invariant. -/
+example : (⟨[1, 2, 3, 4], 2, 2⟩ : EasyMl.Matrix ℚ).Inv ∧
+    (⟨[1, 2, 3, 4], 2, 2⟩ : EasyMl.Matrix ℚ).rows = (⟨[1, 2, 3, 4], 2, 2⟩ : EasyMl.Matrix ℚ).columns := by
+  refine ⟨⟨rfl, ?_, ?_⟩, rfl⟩ <;> decide
+
 /-- Non-vacuity of `LawfulEq` and of the determinant hypothesis: the rationals, a 2×2 matrix. -/
 example : LawfulEq ℚ := fun a b => by simp [NumOrd.eq]
 
 example : (Matrix.of fun i j : Fin 2 => (((i : Nat) + 2 * (j : Nat) + 1 : Nat) : ℚ)).det ≠ 0 := by
   simp [Matrix.det_fin_two]
   norm_num
+
+/-- Non-vacuity of the hypothesis `inverseTensor … = .ok (some t)` of `inverse_mul_self`,
+    `self_mul_inverse`, `tensor_keeps_names`: that 2×2 rational view does have an inverse. -/
+example : ∃ t, inverseTensor ("a", "b") ⟨2, 2, fun i j => ((i + 2 * j + 1 : Nat) : ℚ)⟩ = .ok (some t) :=
+  (inverse_some_iff (fun a b => by simp [NumOrd.eq]) ("a", "b")
+      ⟨2, 2, fun i j => ((i + 2 * j + 1 : Nat) : ℚ)⟩ (by decide)).mpr
+    ⟨rfl, by simp [Matrix.det_fin_two]; norm_num⟩
 
 end Inverse
 
@@ -214,18 +287,5 @@ theorem inverse_total (names : ν × ν) (v : View α) : ∃ o, inverseTensor na
   inverseTensor_total names v
 
 end Agree
-
-/-
-  Documented gap (`_partial`): the determinant theorem for every size,
-
-    theorem detModel_eq_det_all {R} [CommRing R] (n : Nat) (h1 : 1 ≤ n) (get : Nat → Nat → R) :
-        detModel n get = (Matrix.of fun i j : Fin n => get i j).det
-
-  needs Heap's algorithm proved correct for every `n` (the emitted list enumerates `Perm (Fin n)`
-  once each; consecutive entries differ by a transposition).  The consecutive-transposition half
-  is easy; the enumeration half needs the end-state invariants of this variant.  `detModel_eq_det`
-  above covers sizes 1..6, which is the property's stated range; `det_of_enumeration` is already
-  size-independent, so only `heaps_enumerates` for all `n` is missing.
--/
 
 end EasyMl.C07
